@@ -140,6 +140,10 @@ func EnvFromOS() *Env {
 		d, _ := os.MkdirTemp("/dev/shm", "verif-shard-")
 		e.Scratch = d
 	}
+	if os.Getenv("VERIF_SCRATCH_PERPID") == "1" {
+		// several processes of one run share the variable (native fuzz workers)
+		e.Scratch = filepath.Join(e.Scratch, fmt.Sprintf("p%d", os.Getpid()))
+	}
 	fmt.Sscan(os.Getenv("VERIF_SHARD"), &e.Shard)
 	fmt.Sscan(os.Getenv("VERIF_SEED"), &e.Seed)
 	e.Known = LoadKnown(filepath.Join(e.Verif, "known_findings.jsonl"))
